@@ -58,6 +58,7 @@ type Cond struct {
 	Taken bool
 	Pos   token.Pos
 	Fn    *ssa.Function
+	At    ssa.Instruction // the branch instruction the condition was decided at (nil when synthesised)
 }
 
 func (c Cond) String() string {
@@ -221,6 +222,15 @@ type Path struct {
 type memEntry struct {
 	Addr *Val
 	V    *Val
+}
+
+// Iter0Events: the events of all arms of a REP/ALT, one after the other.
+func (e *Event) Iter0Events() []*Event {
+	var out []*Event
+	for _, a := range e.Iter {
+		out = append(out, a.Events...)
+	}
+	return out
 }
 
 // walkEvents visits every event including those nested in REP/ALT arms.
